@@ -13,6 +13,7 @@ CONSTANTS
   Burst = 2
   StoreCap = 4
   EntryBurst = 0
+  BigQs = {}
   MaxOps = 12
   MaxPend = 2
   MaxAge = 2
@@ -24,6 +25,7 @@ CONSTANTS
   EchoCached = FALSE
   ReuseEvicted = FALSE
   SharedKey = FALSE
+  ChargeBeforeFit = FALSE
 INIT Init
 NEXT Next
 CHECK_DEADLOCK FALSE
